@@ -89,7 +89,17 @@ def observe(ds, limit, aspects=('iter', 'len', 'index', 'keys', 'items', 'bykey'
             a = guarded(lambda: ds[i])
             b = guarded(lambda: ds[np.int64(i)])
             c = guarded(lambda: ds[np.int32(i)])
-            gets[i] = (a, b, c)
+            # the narrowest numpy integer type that holds i (unsigned for
+            # every other non-negative i): index arithmetic inside a stage
+            # must not wrap around in the caller's integer width
+            if 0 <= i < 256 and i % 2:
+                narrow = np.uint8(i)
+            elif -128 <= i < 128:
+                narrow = np.int8(i)
+            else:
+                narrow = np.int16(i) if -32768 <= i < 32768 else np.int64(i)
+            d = guarded(lambda: ds[narrow])
+            gets[i] = (a, b, c, d)
         o['get'] = gets
     if 'keys' in aspects and finite:
         o['keys'] = guarded(lambda: tuple(ds.keys()))
